@@ -1,6 +1,7 @@
 """C07 - see DESIGN.md section 5; shared machinery in corecommon.py"""
 from checks import corecommon as cc
 from checks import ctxhist
+from checks import corefam7
 
 PID = "C07"
 LEVEL = cc.LEVEL
@@ -14,6 +15,8 @@ LEAN_MODULES = LEAN_MODULES + ['AsynqModel.Theorems.NoNA']
 THEOREMS = THEOREMS + ["AsynqModel.Core." + n for n in ['C07_lifo_any', 'C07_lifo_needs_noNonAsync', 'C07_values_any', 'C07_restored_at_top_any', 'C07_all_paused_at_top_any', 'Spec_C07_accepts_any', 'Spec_C07_read_value_any']]
 LEAN_MODULES = LEAN_MODULES + ['AsynqModel.Theorems.C07d']
 THEOREMS = THEOREMS + ["AsynqModel.Core." + n for n in ['C07_read_value_dag', 'C07_read_value_dag_running', 'C07_read_value_dag_run', 'C07_spine_label_chain', 'C07_spine_unique', 'C07_resumed_iff_on_spine', 'C07_read_value_tree', 'Spec_C07_read_value_spine', 'C07_shared_read_depends_on_scheduler', 'C07d_both_await', 'C07d_long_spine', 'C07d_needs_guard', 'C07d_needs_wellscoped']]
+LEAN_MODULES = LEAN_MODULES + ['AsynqModel.Theorems.C07e']
+THEOREMS = THEOREMS + ["AsynqModel.Core." + n for n in ['C07_read_from_somewhere', 'C07_read_from_spine', 'C07e_expect_cases']]
 MIX = [('yield_ctx',5),('full',3)]
 RULE = ("grammar-generated task programs (profiles %s; trees and DAGs of tasks, 1-3 batch kinds with priority overrides "
         "and raising flushes, nested yield structures, errors, try/except, synchronous re-entry, contexts) interpreted on "
@@ -23,6 +26,7 @@ LEAN_MODULES = LEAN_MODULES + ctxhist.LEAN_MODULES
 THEOREMS = THEOREMS + ["AsynqModel.Contexts." + n for n in ctxhist.THEOREMS]
 RULE += "; plus " + ctxhist.RULE
 RULE += "; plus family afterthrow (overrides entered after a task caught a thrown-in error), judged by direct expectation (Drv/Families6c.lean)"
+RULE += corefam7.RULE
 TRUSTED = cc.TRUSTED_CORE + ctxhist.TRUSTED
 ASSUMPTIONS = cc.ASSUMPTIONS_CORE + ctxhist.ASSUMPTIONS
 
@@ -32,7 +36,8 @@ def extra(tier, rng):
     return [coregen.override_family(rng) for _ in range(150 if tier == "quick" else 3000)] + \
         [coregen.shared_override_family(rng) for _ in range(100 if tier == "quick" else 2000)] + \
         ctxhist.cases(tier, rng, focus="ov") + cc.corefam4.callctx_cases(tier, cc.fork(rng, "callctx")) + \
-        cc.guard_ctx_cases(tier, cc.fork(rng, "guard")) + cc.corefam6c.afterthrow_cases(tier, cc.fork(rng, "afterthrow"))
+        cc.guard_ctx_cases(tier, cc.fork(rng, "guard")) + cc.corefam6c.afterthrow_cases(tier, cc.fork(rng, "afterthrow")) + \
+        corefam7.sharedread_cases(tier, cc.fork(rng, "sharedread"))
 
 
 def plan(tier, seed):
@@ -42,12 +47,16 @@ def plan(tier, seed):
 def run_case(case):
     if case.get("special") in ("ctxhist", "ctxwith"):
         return ctxhist.run(case)
+    if case.get("special") == "sharedread":
+        return corefam7.run_sharedread(case, PID)
     return cc.run_case_for(PID, case)
 
 
 def shrink(case):
     if case.get("special") in ("ctxhist", "ctxwith"):
         return ctxhist.shrink(case)
+    if case.get("special") == "sharedread":
+        return corefam7.shrink(case)
     return cc.shrink_case(case)
 
 
